@@ -259,8 +259,8 @@ def main(chk):
     chk.assumptions = ["ubsan flavour (LD_PRELOAD-friendly) stands for the tool", "heap shuffling via interposed malloc covers pointer-order dependence; ASLR alone rarely changes relative heap order",
                        "comma-decimal locale synthesised from C.utf8"]
     rng = chk.rng
-    nlibs = chk.pick(5, 40)
-    nheap = chk.pick(4, 12)
+    nlibs = chk.pick(8, 160)
+    nheap = chk.pick(4, 16)
     cases = []
     cid = 0
     for i in range(nlibs):
